@@ -218,6 +218,21 @@ func (setupEngine) Run(ctx *fw.Ctx, cs any) {
 	if c.V6 {
 		job.V6 = []PlugConf{{c.Plugin, c.Args}}
 		job.Reqs, desc = battery6(rng, 40)
+		if c.Plugin == "prefix" && len(c.Args) > 0 {
+			// requests that name prefixes inside whatever pool was configured (in the 16-byte form every
+			// DHCPv6 IAPrefix option carries): the accepted configuration must survive its own addresses
+			if _, ipn, err := net.ParseCIDR(c.Args[0]); err == nil {
+				base := ipn.IP.To16()
+				for k, plen := range []byte{64, 24, 120, 128, 96, 0} {
+					ip := append(net.IP(nil), base...)
+					ip[15-k%4] |= byte(k)
+					msg := pkt.Msg6(1, uint32(0x7000+k), []pkt.Opt6{pkt.O6(pkt.OptClientID6, pkt.DUIDLL([]byte{2, 0, 0, 0, 7, byte(k)})),
+						pkt.IAPD(1, 0, 0, []pkt.Opt6{pkt.IAPrefix(0, 0, plen, ip, nil)})})
+					job.Reqs = append(job.Reqs, ChainReq{V6: true, Hex: hex.EncodeToString(msg), RxIf: fakeIf, Peer: "2001:db8:ffff::99", Port: 546})
+					desc = append(desc, fmt.Sprintf("v6 SOLICIT IA_PD hint %s/%d (inside the configured pool)", ip, plen))
+				}
+			}
+		}
 	} else {
 		job.V4 = []PlugConf{{c.Plugin, c.Args}}
 		job.Reqs, desc = battery4(rng, 40)
